@@ -122,6 +122,22 @@ func Flip(label string, p float64) bool {
 	return s.choose(label, 2, 1-p) == 1
 }
 
+// Pin records v as the value of a choice without drawing (search mode); in a
+// replay the recorded value is returned instead. Used for systematically
+// enumerated workload parameters, so that the replay file stays self-contained.
+//
+//go:norace
+func Pin(label string, n, v int) int {
+	s := S
+	if s == nil {
+		return v
+	}
+	if s.replay {
+		return s.choose(label, n, -1)
+	}
+	return s.chooseFixed(label, n, v)
+}
+
 // Active reports whether a simulated run is in progress.
 //
 //go:norace
